@@ -178,7 +178,7 @@ type filterPlan struct {
 	Tail        int      `json:"tail"`
 	HeaderLines int      `json:"header_lines"`
 	WithNth     string   `json:"with_nth"`
-	Nth         string   `json:"nth"` // --nth: search scope
+	Nth         string   `json:"nth"`         // --nth: search scope
 	SchemeLast  bool     `json:"scheme_last"` // --scheme comes after --tiebreak on the command line: the last one wins
 	Ansi        bool     `json:"ansi"`
 	Decorate    int      `json:"decorate"` // every k-th line carries SGR sequences (0: none)
